@@ -13,9 +13,10 @@ ops (macro ops executed by `harness/hcore/src/bin/timers.rs` at quiescent points
   `advstop <d>` `advkill <d>` `advdrain <d>`   clock += d, then the API call on the target
   `abort <i>` `stop` `kill` `drain`
   `hold` `psrelease`              gate the target's `post_stop` / open the gate
+  `drop <i>` `advdrop <d> <i>`    drop the `JoinHandle` of timer i (the task is detached; an `AbortHandle` is kept)
 
 observation after each op (model and implementation, compared verbatim):
-  `t=<now> att=<id.k@t,…|-> hd=<id.k@t,…|-> res=<P|ok|err|cancelled,…|-> tgt=<Running|PostStop@<t>|Stopped:<reason>@<t>>`
+  `t=<now> att=<id.k@t,…|-> hd=<id.k@t,…|-> res=<P|ok|err|cancelled|panic|dP|dF,…|-> tgt=<Running|PostStop@<t>|Stopped:<reason>@<t>>`
   (`PostStop@t`: the message loop ended at `t` and the gated `post_stop` is running)
 -/
 
@@ -28,11 +29,27 @@ structure DState where
   bad : Bool := false
 
 def showRes : Res → String
-  | .pending => "P" | .ok => "ok" | .err => "err" | .cancelled => "cancelled"
+  | .pending => "P" | .ok => "ok" | .err => "err" | .cancelled => "cancelled" | .panicked => "panic"
 
 def parseRes? : String → Option Res
   | "P" => some .pending | "ok" => some .ok | "err" => some .err | "cancelled" => some .cancelled
+  | "panic" => some .panicked
   | _ => none
+
+/-- what the owner of timer `i`'s handle can read: the task's answer, or — once the `JoinHandle` is
+dropped — only whether the task is still there (`AbortHandle::is_finished`) -/
+inductive HObs | res (r : Res) | dropped (finished : Bool)
+  deriving DecidableEq
+
+def showHObs : HObs → String
+  | .res r => showRes r
+  | .dropped false => "dP"
+  | .dropped true => "dF"
+
+def parseHObs? : String → Option HObs
+  | "dP" => some (.dropped false)
+  | "dF" => some (.dropped true)
+  | w => (parseRes? w).map HObs.res
 
 def showEvs (l : List (Nat × Nat × Nat)) : String :=
   if l.isEmpty then "-" else
@@ -66,7 +83,8 @@ def newAttempts (old new : List Timer) : List (Nat × Nat × Nat) :=
 def observe (old new : State) : String :=
   let att := newAttempts old.timers new.timers
   let hd := new.target.handled.drop old.target.handled.length
-  let res := if new.timers.isEmpty then "-" else ",".intercalate (new.timers.map (showRes ·.res))
+  let res := if new.timers.isEmpty then "-" else ",".intercalate (new.timers.zipIdx.map fun (τ, i) =>
+    showHObs (if new.dropped.contains i then .dropped (τ.res != .pending) else .res τ.res))
   s!"t={new.now} att={showEvs att} hd={showEvs hd} res={res} tgt={showTarget new.target}"
 
 def parseMOp? (ws : List String) : Option MOp :=
@@ -93,6 +111,8 @@ def parseMOp? (ws : List String) : Option MOp :=
   | ["advdrain", d] => d.toNat?.map MOp.advDrain
   | ["abort", i] => i.toNat?.map MOp.abort
   | ["stop"] => some .stop | ["kill"] => some .kill | ["drain"] => some .drain
+  | ["drop", i] => i.toNat?.map MOp.dropHandle
+  | ["advdrop", d, i] => do pure (MOp.advDrop (← d.toNat?) (← i.toNat?))
   | ["hold"] => some .hold
   | ["psrelease"] => some .psrelease
   | _ => none
@@ -109,7 +129,7 @@ structure ImplObs where
   t : Nat
   att : List (Nat × Nat × Nat)
   hd : List (Nat × Nat × Nat)
-  res : List Res
+  res : List HObs
   exit : Option (Reason × Nat)
   /-- the target reported that its message loop ended at this instant and `post_stop` runs -/
   ps : Option Nat := none
@@ -127,7 +147,7 @@ def parseImpl? (s : String) : Option ImplObs :=
       let att ← parseEvs? (← field? att "att=")
       let hd ← parseEvs? (← field? hd "hd=")
       let res ← field? res "res="
-      let res ← if res == "-" then some [] else (splitOnChar res ',').mapM parseRes?
+      let res ← if res == "-" then some [] else (splitOnChar res ',').mapM parseHObs?
       let ps ← match field? tgt "PostStop@" with
         | some ts => ts.toNat?.map some
         | none => some none
@@ -158,11 +178,35 @@ def absorb (v : State) (mop : MOp) (o : ImplObs) : State × List String := Id.ru
       if k != τ.sentAt.length + 1 then errs := errs ++ [s!"attempt-sequence timer={i} k={k}"]
       timers := timers.set i { τ with sentAt := τ.sentAt ++ [t] }
     | none => errs := errs ++ [s!"attempt-unknown-timer {i}"]
+  -- the instant the target stopped accepting, as far as this observation tells
+  let closeNow : Option Nat := match v.target.closedAt with
+    | some tc => some tc
+    | none => match o.ps, o.exit with
+      | some ts, _ => some ts
+      | none, some (_, te) => some te
+      | none, none => none
+  let aborted : Option Nat := match mop with
+    | .abort i => some i | .advAbort _ i => some i | _ => none
   -- handle results
   if o.res.length != timers.length then errs := errs ++ ["res-length"]
-  for (r, i) in o.res.zipIdx do
+  for (h, i) in o.res.zipIdx do
     match timers[i]? with
     | some τ =>
+      -- a dropped handle tells nothing but "the task is gone": the answer nobody can read any more is
+      -- reconstructed as the one that is consistent with what the message builder / the target saw
+      -- (so the handle clauses of the oracle are vacuous for it, all the others are not)
+      let r : Res := match h with
+        | .res r => r
+        | .dropped false => .pending
+        | .dropped true =>
+          if τ.res != .pending then τ.res
+          else if aborted == some i then .cancelled
+          else if τ.kind == .interval && τ.period == 0 then .panicked
+          else if τ.kind == .sendAfter then
+            (match closeNow, τ.sentAt.getLast? with
+             | some tc, some t => if tc < t then .err else .ok
+             | _, _ => .ok)
+          else .ok
       if τ.res == .pending && r != .pending then
         -- exit_after / kill_after have no message builder: they acted when they finished ok
         let sent := if !τ.kind.sends && r == .ok then τ.sentAt ++ [o.t] else τ.sentAt
@@ -188,7 +232,9 @@ def absorb (v : State) (mop : MOp) (o : ImplObs) : State × List String := Id.ru
       errs := errs ++ ["exit-vanished"]
       pure T
     | none, none => pure T
-  return ({ now := o.t, target := T, timers := timers, visits := v.visits ++ [o.t] }, errs)
+  let dropped := match mop with
+    | .dropHandle i => v.dropped ++ [i] | .advDrop _ i => v.dropped ++ [i] | _ => v.dropped
+  return ({ now := o.t, target := T, timers := timers, visits := v.visits ++ [o.t], dropped := dropped }, errs)
 
 def firstBad (s : State) (f : State → Timer → Bool) : String :=
   match (s.timers.zipIdx.filter fun (τ, _) => !f s τ) with
